@@ -1752,25 +1752,16 @@ fn mode_compose(r: &mut Runner) {
                 std::thread::yield_now();
             }
         }
-        // come to rest: the counters stop moving (bounded wait; the verdict is on the values, not on the time)
+        // come to rest: the queue's thread has caught up, or it is asleep for good / gone with the counters as they are
+        // (decided from its /proc entries, not by a deadline)
         let t0 = std::time::Instant::now();
-        let mut last = (q.submitted(), q.drained(), q.queued());
-        let mut still = 0;
-        while still < 20 && t0.elapsed().as_secs() < 20 {
-            std::thread::sleep(std::time::Duration::from_millis(2));
-            let cur = (q.submitted(), q.drained(), q.queued());
-            if cur == last && cur.1 >= cur.0 {
-                still += 1;
-            } else if cur == last {
-                still += 1;
-                if still >= 20 && t0.elapsed().as_millis() < 600 {
-                    still = 10; // not caught up yet: give the queue's thread more time before judging
-                }
-            } else {
-                still = 0;
-                last = cur;
-            }
+        let verdict = procmon::watch(|| q.drained() >= q.submitted() && q.queued() == 0, 40, std::time::Duration::from_millis(400), std::time::Duration::from_secs(60));
+        if matches!(verdict, Some(procmon::Quiescence::Active) | Some(procmon::Quiescence::Spinning { .. })) {
+            r.rep().inconclusive(format!("compose stock sinks: the queue's thread was still busy after 60 s ({:?})", verdict));
+            drop(q);
+            continue;
         }
+        let last = (q.submitted(), q.drained(), q.queued());
         let (sub, dr, qd) = last;
         let label = format!("compose stock sink #{} ({}) capacity {:?}", kind, ["NopMetricSink", "SpyMetricSink", "BufferedSpyMetricSink", "a sink that fails every metric"][kind as usize], cap);
         {
@@ -1781,7 +1772,7 @@ fn mode_compose(r: &mut Runner) {
             if sub != oks {
                 rep.violation(Violation { property: "C15".into(), rule: "R7".into(), class: "submitted-wrong".into(), detail: format!("[{}] {} emits returned Ok, submitted() = {} at rest", label, oks, sub), replay_args: r.args.to_vec_with(&[]), trace: Json::Null });
             } else if dr != sub || qd != 0 {
-                rep.violation(Violation { property: "C15".into(), rule: "R7".into(), class: "drained-wrong".into(), detail: format!("[{}] at rest (counters unchanged for 20 samples, {} ms after the last emit): submitted() = {}, drained() = {}, queued() = {}", label, t0.elapsed().as_millis(), sub, dr, qd), replay_args: r.args.to_vec_with(&[]), trace: Json::Null });
+                rep.violation(Violation { property: "C15".into(), rule: "R7".into(), class: "drained-wrong".into(), detail: format!("[{}] at rest ({} ms after the last emit; the queue's thread: {}): submitted() = {}, drained() = {}, queued() = {}", label, t0.elapsed().as_millis(), match &verdict { None => "caught up".to_string(), Some(v) => format!("{:?}", v) }, sub, dr, qd), replay_args: r.args.to_vec_with(&[]), trace: Json::Null });
             }
         }
         drop(q);
@@ -1844,6 +1835,10 @@ fn mode_compose(r: &mut Runner) {
         let own_queue = variant % 2 == 1;
         let n = if variant < 2 { 40usize } else { 400 };
         let calls: Arc<M<Vec<(String, String)>>> = Arc::new(M::new(Vec::new())); // (which handler, text)
+        // None = every expected call came; Parked / NoLibraryThread = the queues' threads are done and fewer came (the verdict
+        // is theirs, not a deadline's); Active = still busy after 60 s (inconclusive)
+        #[allow(unused_assignments)]
+        let mut stuck: Option<procmon::Quiescence> = None;
         let submit_failed: Arc<M<Vec<String>>> = Arc::new(M::new(Vec::new()));
         let sid = r.sid + 6 + variant;
         let expected: usize;
@@ -1872,10 +1867,7 @@ fn mode_compose(r: &mut Runner) {
             for k in 0..n {
                 let _ = first.emit(&format!("h{}.n{}:1|c", sid, k));
             }
-            let t0 = std::time::Instant::now();
-            while calls.lock().unwrap_or_else(|e| e.into_inner()).len() < expected && t0.elapsed().as_secs() < 20 {
-                std::thread::sleep(std::time::Duration::from_millis(2));
-            }
+            stuck = procmon::watch(|| calls.lock().unwrap_or_else(|e| e.into_inner()).len() >= expected, 40, std::time::Duration::from_millis(400), std::time::Duration::from_secs(60));
             // a little longer: a surplus call would come now
             std::thread::sleep(std::time::Duration::from_millis(30));
             *slot.lock().unwrap() = None;
@@ -1903,10 +1895,7 @@ fn mode_compose(r: &mut Runner) {
             for k in 0..n {
                 let _ = first.emit(&format!("h{}.n{}:1|c", sid, k));
             }
-            let t0 = std::time::Instant::now();
-            while calls.lock().unwrap_or_else(|e| e.into_inner()).len() < expected && t0.elapsed().as_secs() < 20 {
-                std::thread::sleep(std::time::Duration::from_millis(2));
-            }
+            stuck = procmon::watch(|| calls.lock().unwrap_or_else(|e| e.into_inner()).len() >= expected, 40, std::time::Duration::from_millis(400), std::time::Duration::from_secs(60));
             std::thread::sleep(std::time::Duration::from_millis(30));
         }
         let got: Vec<(String, String)> = calls.lock().unwrap_or_else(|e| e.into_inner()).clone();
@@ -1923,7 +1912,9 @@ fn mode_compose(r: &mut Runner) {
                 *dup.entry(m.clone()).or_insert(0usize) += 1;
             }
             let twice = dup.iter().find(|(_, c)| **c > 1).map(|(m, c)| (m.clone(), *c));
-            if sf > 0 {
+            if matches!(stuck, Some(procmon::Quiescence::Active) | Some(procmon::Quiescence::Spinning { .. })) {
+                rep.inconclusive(format!("{}: the queues' threads were still busy after 60 s", label));
+            } else if sf > 0 {
                 rep.inconclusive(format!("{}: {} follow-ups were refused by an unbounded queue (C10's business)", label, sf));
             } else if let Some((m, c)) = twice {
                 rep.violation(Violation { property: "C16".into(), rule: "R8".into(), class: "handler-called-twice".into(), detail: format!("[{}] the handler was called {} times for {:?}", label, c, m), replay_args: r.args.to_vec_with(&[]), trace: Json::Null });
